@@ -169,6 +169,8 @@ func SafeRun(env *Env, sc Scenario, st *Stats) (vs []Violation) {
 // Minimise shrinks sc greedily while the same clause (and key) keeps failing.
 func Minimise(env *Env, sc Scenario, clause, key string, maxTries int, deadline time.Time) Scenario {
 	tries := 0
+	shrinkOver = func() bool { return tries >= maxTries || time.Now().After(deadline) }
+	defer func() { shrinkOver = func() bool { return false } }()
 	for {
 		progressed := sc.Shrinks(func(c Scenario) bool {
 			if tries >= maxTries || time.Now().After(deadline) {
@@ -189,6 +191,14 @@ func Minimise(env *Env, sc Scenario, clause, key string, maxTries int, deadline 
 
 // ShrinkList tries to remove runs of elements from a list: halves, quarters, ... singles.
 // mk builds a candidate scenario from the reduced list.
+// shrinkOver tells candidate generators that the shrinking budget is used up, so that
+// they stop building candidates nobody will run (a list of 45 000 events has 90 000
+// candidates of megabytes each).
+var shrinkOver = func() bool { return false }
+
+// ShrinkOver reports whether the current minimisation has used up its budget.
+func ShrinkOver() bool { return shrinkOver() }
+
 func ShrinkList[T any](list []T, try func([]T) bool) bool {
 	n := len(list)
 	if n == 0 {
@@ -196,6 +206,9 @@ func ShrinkList[T any](list []T, try func([]T) bool) bool {
 	}
 	for size := n; size >= 1; size /= 2 {
 		for start := 0; start+size <= n; start += size {
+			if shrinkOver() {
+				return false
+			}
 			cand := make([]T, 0, n-size)
 			cand = append(cand, list[:start]...)
 			cand = append(cand, list[start+size:]...)
